@@ -1349,3 +1349,33 @@ Proof.
   unfold eav_out. rewrite map_map. cbn [fst]. rewrite map_id. apply NoDup_filter.
   destruct (eav_list_spec st (st_rules st) c r m [r]) as [Hnd _]. exact Hnd.
 Qed.
+
+(* ------------------------------------------------------------------ C05: a sender that closes after writing *)
+(* closing is one more event at the END of what was written: every earlier step, in particular every message the sender wrote
+   before, has been processed exactly as if it were still connected (the trace of the prefix is untouched) ... *)
+Theorem close_keeps_earlier_steps cf h c :
+  trace_of cf (h ++ [EDisconnect c]) = (EDisconnect c, snd (step cf (state_of cf h) (EDisconnect c))) :: trace_of cf h.
+Proof. unfold trace_of at 1. rewrite run_snoc. reflexivity. Qed.
+
+Lemma names_drop_clean names c n q o : In (n, q) (names_drop names c) -> In o q -> o_conn o <> c.
+Proof. intros H Ho. apply names_drop_in in H. destruct H as (q0 & _ & ->). apply remove_owner_in in Ho. tauto. Qed.
+
+(* ... and afterwards nothing of the sender is left: not connected, no slot with it as caller or callee, no name, no rule *)
+Theorem close_cleans_up cf st c :
+  connected st c = true ->
+  let st' := fst (step cf st (EDisconnect c)) in
+  connected st' c = false /\
+  (forall p, In p (st_pend st') -> p_get p <> c /\ p_send p <> Some c) /\
+  (forall n q o, In (n, q) (st_names st') -> In o q -> o_conn o <> c) /\
+  (forall x, In x (st_rules st') -> fst x <> c).
+Proof.
+  intros Hc. unfold step. cbn [wf_event]. rewrite Hc. cbn [negb]. unfold disconnect. rewrite expire_pass_spec. cbn [fst].
+  repeat split.
+  - unfold connected. cbn [st_conns]. rewrite find_conn_filter, N.eqb_refl. reflexivity.
+  - cbn [st_pend] in H. apply filter_In in H. destruct H as [H _]. apply drop_pending_in in H.
+    destruct H as (p0 & _ & Hg & [[-> _]|[_ ->]]); [apply N.eqb_neq; auto|cbn [p_get]; apply N.eqb_neq; auto].
+  - cbn [st_pend] in H. apply filter_In in H. destruct H as [H He]. apply drop_pending_in in H.
+    destruct H as (p0 & _ & Hg & [[-> Hs]|[_ ->]]); [exact Hs|discriminate].
+  - cbn [st_names]. intros n q o H Ho. eapply names_drop_clean; eauto.
+  - cbn [st_rules]. intros x H. apply filter_In in H. destruct H as [_ H]. apply negb_true_iff, N.eqb_neq in H. exact H.
+Qed.
